@@ -268,7 +268,7 @@ def render_child_module(fc, g, fallible, draws):
     return "\n".join(L + D) + "\n", derive_src
 
 
-def conv_driver(tag, fallible, want_from, want_into, want_existing, kinds=KINDS):
+def conv_driver(tag, fallible, want_from, want_into, want_existing, kinds=KINDS, by_kind=None):
     pre = "try_" if fallible else ""
     D = []
     calls = {
@@ -281,6 +281,8 @@ def conv_driver(tag, fallible, want_from, want_into, want_existing, kinds=KINDS)
     }
     for k in kinds:
         call, want, src = calls[k]
+        if by_kind and k in by_kind:
+            want = by_kind[k]
         srcfmt = f'&format!("{{:?}}|pre={{:?}}", {src}, pre)' if "existing" in k else f'&format!("{{:?}}", {src})'
         D.append(f'        log.ev("{tag}", "{pre}{k}", d, {srcfmt}, &crate::rt::guard(|| {call}), &crate::rt::guard(|| {want}));')
     return D
@@ -326,18 +328,75 @@ def gen_parent_case(g, cid, opts=None):
             for l in n.leaves:
                 l["tname"] = l["name"] if (g.chance(0.6) and not n.tuple) else f"m{g.mark()}"
                 fc.tfields.append(dict(name=l["tname"], ty=l["ty"]))
+    # kind-split entries: two same-typed leaves of one flattened value whose nested instructions send them to *different* counterpart fields
+    # depending on the conversion kind (every kind still fills every counterpart field exactly once); the into_existing kinds reach their
+    # instruction through the documented fallback to the matching into flavour, or carry their own one
+    cands = [n for _, tree in fc.parents for _, n in walk(tree) if not n.tuple and len(n.leaves) >= 2]
+    split_form = None
+    ks = (opts or {}).get("kind_split", "swap")   # "uniform": every kind keeps the leaf's own counterpart field (flavours stay comparable, C07)
+    if cands and "parent_tuple_permuted" not in fc.flags and g.chance(0.4):
+        n = r.choice(cands)
+        a, b = r.sample(n.leaves, 2)
+        b["ty"] = a["ty"]
+        for t in fc.tfields:
+            if t["name"] == b["tname"]:
+                t["ty"] = a["ty"]
+        form = r.choice(sorted(SPLIT_FORMS))
+        a["split"] = (form, 0, b["tname"] if ks == "swap" else a["tname"])
+        b["split"] = (form, 1, a["tname"] if ks == "swap" else b["tname"])
+        split_form = form
     r.shuffle(fc.tfields)
     fc.depth = max(len(p) for _, t in fc.parents for p, _ in walk(t))
     fc.branching = max([len(n.children) for _, t in fc.parents for _, n in walk(t)] + [0])
-    fc.perm = "n/a"
+    fc.perm = "n/a" if not split_form else "kind_split:" + split_form
+    # which kinds are flavours of the *same* mapping (C07 compares only those): kind -> the designation of every flattened leaf under that kind
+    fc.kind_classes = {k: tuple(leaf_tname(l, k) for _, tree in fc.parents for _, n in walk(tree) for l in n.leaves) for k in KINDS}
     return fc
+
+
+# nested instruction sets of a kind-split entry: (instruction name, 0 = the leaf's own counterpart field / 1 = its partner's); the sets are
+# slot-disjoint, so exactly one instruction applies to each kind
+SPLIT_FORMS = {
+    "F1": [("from_owned", 0), ("from_ref", 1), ("owned_into", 0), ("ref_into", 1)],
+    "F2": [("map_owned", 0), ("map_ref", 1)],
+    "F3": [("from", 0), ("owned_into", 0), ("ref_into", 1)],
+    "F4": [("from", 0), ("owned_into", 0), ("ref_into", 0), ("owned_into_existing", 1)],
+    "F5": [("map", 0), ("ref_into_existing", 1)],
+    "F6": [("from", 1), ("into", 0), ("into_existing", 1)],
+}
+# which instruction names serve which kind (written from the README's naming scheme, not read from /repo)
+SPLIT_SERVES = {
+    "owned_into": ["owned_into", "into", "map_owned", "map"], "ref_into": ["ref_into", "into", "map_ref", "map"],
+    "from_owned": ["from_owned", "from", "map_owned", "map"], "from_ref": ["from_ref", "from", "map_ref", "map"],
+    "owned_into_existing": ["owned_into_existing", "into_existing"], "ref_into_existing": ["ref_into_existing", "into_existing"],
+}
+
+
+def leaf_tname(l, kind):
+    """counterpart field a flattened leaf is mapped to under one conversion kind"""
+    sp = l.get("split")
+    if not sp:
+        return l["tname"]
+    form, side, partner = sp
+    names = dict(SPLIT_FORMS[form])
+    for k in (kind, kind.replace("_existing", "")):
+        hit = [nm for nm in SPLIT_SERVES[k] if nm in names]
+        if hit:
+            assert len(hit) == 1, (form, kind, hit)
+            return l["tname"] if names[hit[0]] == 0 else partner
+    raise AssertionError((form, kind))
 
 
 def parent_args(g, node, typed):
     r = g.r
     ents = []
     for l in node.leaves:
-        if l["tname"] != l["name"]:
+        if l.get("split"):
+            form, side, partner = l["split"]
+            ins = [f"[{nm}({l['tname'] if w == 0 else partner})]" for nm, w in SPLIT_FORMS[form]]
+            r.shuffle(ins)
+            ents.append(" ".join(ins) + f" {l['name']}")
+        elif l["tname"] != l["name"]:
             form = r.choice(["map", "from+into"]) if True else "map"
             if form == "map":
                 ents.append(f"[map({l['tname']})] {l['name']}")
@@ -387,23 +446,35 @@ def render_parent_module(fc, g, fallible, draws):
     L.append("#[derive(Clone, Debug, PartialEq, Default)]\npub struct T { " + " ".join(f"pub {t['name']}: {t['ty']}," for t in fc.tfields) + " }")
     L += [derive_src, ""]
     wrap = (lambda e: f"Ok::<_, super::Er>({e})") if fallible else (lambda e: e)
-    svals = []
-    for f in it.fields:
-        tree = next((t for pn, t in fc.parents if pn == f.name), None)
-        if tree is None:
-            svals.append(f"{f.name}: t.{f.name},")
+    split = any(l.get("split") for _, tree in fc.parents for _, n in walk(tree) for l in n.leaves)
+    by_kind = {}
+    for kind in (KINDS if split else ["from_ref", "ref_into"]):
+        if kind.startswith("from"):
+            svals = []
+            for f in it.fields:
+                tree = next((t for pn, t in fc.parents if pn == f.name), None)
+                if tree is None:
+                    svals.append(f"{f.name}: t.{f.name},")
+                else:
+                    svals.append(f"{f.name}: {tree_value(tree, lambda p, l: 't.' + leaf_tname(l, kind))},")
+            fn = f"want_{kind}" if split else "ref_from"
+            L.append(f"fn {fn}(t: &T) -> {'Result<S, super::Er>' if fallible else 'S'} {{ {wrap('S { ' + ' '.join(svals) + ' }')} }}")
+            by_kind[kind] = f"{fn}(&t)"
         else:
-            svals.append(f"{f.name}: {tree_value(tree, lambda p, l: 't.' + l['tname'])},")
-    L.append(f"fn ref_from(t: &T) -> {'Result<S, super::Er>' if fallible else 'S'} {{ {wrap('S { ' + ' '.join(svals) + ' }')} }}")
-    tv = {}
-    for o in fc.own:
-        tv[o["name"]] = f"s.{o['name']}"
-    for pname, tree in fc.parents:
-        for path, n in walk(tree):
-            for l in n.leaves:
-                tv[l["tname"]] = "s." + ".".join((pname,) + path + (str(l["name"]),))
-    tbody = "T { " + " ".join(t["name"] + ": " + tv[t["name"]] + "," for t in fc.tfields) + " }"
-    L.append(f"fn ref_into(s: &S, pre: &T) -> {'Result<T, super::Er>' if fallible else 'T'} {{ {wrap(tbody)} }}")
+            tv = {}
+            for o in fc.own:
+                tv[o["name"]] = f"s.{o['name']}"
+            for pname, tree in fc.parents:
+                for path, n in walk(tree):
+                    for l in n.leaves:
+                        assert leaf_tname(l, kind) not in tv
+                        tv[leaf_tname(l, kind)] = "s." + ".".join((pname,) + path + (str(l["name"]),))
+            tbody = "T { " + " ".join(t["name"] + ": " + tv[t["name"]] + "," for t in fc.tfields) + " }"
+            fn = f"want_{kind}" if split else "ref_into"
+            L.append(f"fn {fn}(s: &S, pre: &T) -> {'Result<T, super::Er>' if fallible else 'T'} {{ {wrap(tbody)} }}")
+            by_kind[kind] = f"{fn}(&s, &pre)"
+    if not split:
+        by_kind = None
     tag = f"c{fc.cid}{'f' if fallible else 'i'}"
     D = ["pub fn run(log: &mut crate::rt::Log) {", f"    let mut r = crate::rt::Rng::new({fc.cid + 8000});", f"    for d in 0..{draws}usize {{"]
     D.append("        let t: T = T { " + " ".join(f"{t['name']}: {rng_call(t['ty'])}," for t in fc.tfields) + " };")
@@ -413,7 +484,7 @@ def render_parent_module(fc, g, fallible, draws):
         tree = next((t for pn, t in fc.parents if pn == f.name), None)
         sv.append(f"{f.name}: {rng_call(f.ty) if tree is None else tree_value(tree, lambda p, l: rng_call(l['ty']))},")
     D.append("        let s: S = S { " + " ".join(sv) + " };")
-    D += conv_driver(tag, fallible, "ref_from(&t)", "ref_into(&s, &pre)", "ref_into(&s, &pre)")
+    D += conv_driver(tag, fallible, "ref_from(&t)", "ref_into(&s, &pre)", "ref_into(&s, &pre)", by_kind=by_kind)
     D += ["    }", "}"]
     return "\n".join(L + D) + "\n", derive_src
 
